@@ -186,6 +186,8 @@ class ARM:
                 addr = (x[b] + off) & M
                 if addr % 4:
                     raise Violation('misaligned-access', '%s at 0x%x' % (src, addr))
+                if STACK_TOP - STACK_SIZE <= addr < x[13]:
+                    raise Violation('access-below-stack-pointer', '%s touches 0x%x while sp = 0x%x' % (src, addr, x[13]))
                 if mn == 'ldr':
                     x[rt] = mem.load(addr, 4, src)
                 else:
